@@ -260,3 +260,61 @@ for meth, post in (('pause', guard(STATES['Paused'], [STATES['Init'], STATES['Su
                  c.post.self.state == c.pre.self.state,
                  z3.BoolVal(not c.st.ghost.get('written'))))],
              **common)
+
+
+# ---- who is rescheduled when a waiting routine is signalled ---------------------------
+# thread_player is a pure lookup along the parent chain: it never stores anything
+# (a memo would go stale when the routine is later played on its own)
+TP_FIELDS = {'TimeThread': {'_thread_player': ['none', 'obj'], 'parent': ['none', 'obj', 'ref:ParentTT']},
+             'ParentTT': {},
+             'Main': dict(MAIN_FIELDS, main_tt='aref:TimeThread', current_tt='aref:TimeThread')}
+
+
+def tp_hooks():
+    def getattr_(eng, obj, name, st, node):
+        if obj.k == 'ref' and obj.cls == 'ParentTT' and name == 'thread_player':
+            st.trace.append(('parent-lookup', obj.oid))
+            return [(st, V('obj', oid='player-of-parent'))]
+        return None
+
+    def compare(eng, op, a, b, st, node):
+        if isinstance(op, (ast.Is, ast.IsNot)):
+            for p, q in ((a, b), (b, a)):
+                if p.k == 'ref' and p.cls == 'ParentTT' and q.k == 'ref' and q.oid == 'main.main_tt':
+                    r = z3.Bool('parent.is_main_tt')
+                    return z3.Not(r) if isinstance(op, ast.IsNot) else r
+        return None
+    return {'getattr': getattr_, 'compare': compare}
+
+
+def tp_post(c):
+    r = c.resultv
+    tp = c._params['self']
+    own = c.pre.self.v('_thread_player')
+    par = c.pre.self.v('parent')
+    if own.k != 'none':
+        return z3.BoolVal(r.k == 'obj' and r.oid == own.oid)
+    if par.k == 'ref':
+        asked = any(e[0] == 'parent-lookup' for e in c.trace)
+        is_main = z3.Bool('parent.is_main_tt')
+        if r.k == 'obj' and r.oid == 'player-of-parent':
+            return z3.And(z3.Not(is_main), z3.BoolVal(asked))
+        return z3.And(is_main, z3.BoolVal(r.k == 'ref' and r.oid == 'self'))
+    return z3.BoolVal(r.k == 'ref' and r.oid == 'self')
+
+
+for tpk in (['none'], ['obj']):
+    for park in (['none'], ['obj'], ['ref:ParentTT']):
+        if park == ['obj']:
+            continue
+        contract(F, 'TimeThread.thread_player', props=('C11',),
+                 params={'self': 'self'},
+                 ensures=[('own-player-else-parents-player-else-itself', tp_post)],
+                 modifies=[],
+                 fields={'TimeThread': {'_thread_player': tpk[0], 'parent': park[0]},
+                         'ParentTT': {}, 'Main': TP_FIELDS['Main']},
+                 hooks=tp_hooks(), class_modules={'TimeThread': F}, native=False)
+        from vf.pyvc.spec import REGISTRY
+        key = '%s::TimeThread.thread_player#%s-%s' % (F, tpk[0], park[0].replace(':', '_'))
+        REGISTRY[key] = REGISTRY.pop('%s::TimeThread.thread_player' % F)
+        REGISTRY[key].key = key
